@@ -191,7 +191,6 @@ int32 matrixSslDecodeTls13(ssl_t *ssl,
     psSize_t maxEarlyData = 0;
     int32_t padLen = 0;
     uint32_t ptLen;
-    psSize_t parsedBytes = 0;
     psBuf_t tmp;
     psBool_t useOutbufForResponse = PS_FALSE;
     psBool_t recordWasDecrypted = PS_FALSE;
@@ -212,7 +211,6 @@ int32 matrixSslDecodeTls13(ssl_t *ssl,
     decryptTo = *in;
 
     /* Parse and validate record header. */
-parse_next_record_header:
     rc = tls13ParseRecordHeader(ssl,
             &pb,
             requiredLen);
@@ -225,11 +223,7 @@ parse_next_record_header:
 
     if (!psParseCanRead(&pb, ssl->rec.len))
     {
-        /* It is possible that we get ChangeCipherSpec and incomplete part
-           of some other record (e.g. Certificate) in the same buffer.
-           In order for the requiredLen calculation to go correctly, the length
-           of ChangeCipherSpec must be taken into account (= parsedBytes) */
-        *requiredLen = parsedBytes + ssl->rec.len + ssl->recordHeadLen;
+        *requiredLen = ssl->rec.len + ssl->recordHeadLen;
         return SSL_PARTIAL;
     }
 
@@ -262,27 +256,25 @@ parse_next_record_header:
         rc = tls13ParseChangeCipherSpec(ssl, &pb, requiredLen);
         HANDLE_PARSE_RC(rc, SSL_ALERT_ILLEGAL_PARAMETER);
         psTraceInfo("Ignoring change_cipher_spec...\n");
-        /* Bytes consumed so far, counted from the start of the input
-           (*in has not moved): not an increment per record. */
-        parsedBytes = pb.buf.start - *in;
-        if (pb.buf.start != pb.buf.end)
-        {
-            /* There is more data to be parsed */
-            goto parse_next_record_header; /* Ignore, as per spec. */
-        }
-        /* Done - tell the caller what we've consumed. */
-        *in += parsedBytes;
-        *len -= parsedBytes;
-        *remaining -= PS_MIN(parsedBytes, *remaining);
+        /* Ignore, as per spec: consume this record on its own and tell the
+           caller what we've consumed. A record that follows in the same
+           buffer is NOT decoded here, behind the ignored bytes: everything
+           done with a decoded record later on (the plaintext and the alert
+           bytes handed to the application, the data matrixSslProcessedData
+           moves to the front, the length asked for on SSL_PARTIAL) takes the
+           record to start at the front of the input buffer. Returning
+           MATRIXSSL_SUCCESS with input left over makes
+           matrixSslReceivedData pack the buffer and call us again, as it
+           does after any other record that needs no response. */
+        *len -= pb.buf.start - *in;
+        *in = pb.buf.start;
+        *remaining = pb.buf.end - pb.buf.start;
         /* If there's handshake message waiting in outbuf then send it */
-        if (ssl->outlen > 0)
+        if (*remaining == 0 && ssl->outlen > 0)
         {
             return SSL_SEND_RESPONSE;
         }
-        else
-        {
-            return MATRIXSSL_SUCCESS;
-        }
+        return MATRIXSSL_SUCCESS;
     }
     else if (ssl->rec.type == SSL_RECORD_TYPE_ALERT)
     {
@@ -513,7 +505,7 @@ parse_next_record_header:
             ssl->tls13EarlyDataStatus = MATRIXSSL_EARLY_DATA_ACCEPTED;
         }
         *remaining = *len - (pb.buf.start - *in);
-        Memmove(*in, *in + TLS_REC_HDR_LEN + parsedBytes, ptLen);
+        Memmove(*in, *in + TLS_REC_HDR_LEN, ptLen);
         *in = pb.buf.start;
         *len = ptLen;
         return SSL_PROCESS_DATA;
